@@ -23,8 +23,17 @@ Inductive sev :=
   | SConf (enabled anon : bool) (qrules : list bytes) (qign : list bool) (obs : bool * bool * bool)
   (* POST /control/querylog_config (deprecated), each field present or absent *)
   | SLegacy (enabled anon : option bool) (obs : bool * bool * bool)
+  (* PUT /control/stats/config/update: a new statistics ignore list *)
+  | SStatsConf (srules : list bytes) (sign : list bool)
   | SFlush
-  | SSearch (obs : list lentry).                        (* GET /control/querylog: name, client, client_id *)
+  (* queryLog.rotate (what the hourly rotation check does when the oldest record
+     is older than the interval): querylog.json -> querylog.json.1 *)
+  | SRotate
+  (* the hour of the scripted unit clock advanced, then StatsCtx.flush *)
+  | SRoll
+  | SSearch (obs : list lentry)                         (* GET /control/querylog: name, client, client_id *)
+  (* GET /control/stats in the middle of a scenario *)
+  | SStats (obs_domains : list (bytes * N)) (obs_clients : list (bytes * bytes * N)) (obs_total : N).
 
 Inductive case :=
   (* [qrules] / [srules]: the configured ignore lists as given to
@@ -35,6 +44,7 @@ Inductive case :=
   | CScen (anon refuse : bool) (names : list bytes) (qrules : list bytes) (qign : list bool)
           (srules : list bytes) (sign : list bool) (macs : list (bytes * bytes))
           (evs : list sev)
+          (obs_old : list lentry)                       (* querylog.json.1 at the end, in order *)
           (obs_file : list lentry)                      (* querylog.json after the final flush, in order *)
           (obs_domains : list (bytes * N))              (* /control/stats top_queried_domains *)
           (obs_clients : list (bytes * bytes * N))      (* /control/stats top_clients: ClientID or address *)
@@ -48,12 +58,31 @@ Definition oracle (tbl : list (bytes * bool)) : bytes -> bool :=
 
 Record rstate := {
   r_ix : index; r_dhcp : list (addr * bytes); r_conf : qconf; r_qrules : list bytes;
-  r_qign : list (bytes * bool); r_st : store
+  r_qign : list (bytes * bool); r_srules : list bytes; r_sign : list (bytes * bool); r_st : store
 }.
 
-Definition env_of (refuse : bool) (srules : list bytes) (sign : list (bytes * bool)) (r : rstate) : env :=
+Definition env_of (refuse : bool) (r : rstate) : env :=
   {| e_ix := r_ix r; e_dhcp := fun a => zget a (r_dhcp r); e_anon := qc_mut (r_conf r); e_qlog_enabled := qc_enabled (r_conf r); e_refuse_any := refuse;
-     e_qign := ignore_fn (r_qrules r) (oracle (r_qign r)); e_sign := ignore_fn srules (oracle sign) |}.
+     e_qign := ignore_fn (r_qrules r) (oracle (r_qign r)); e_sign := ignore_fn (r_srules r) (oracle (r_sign r)) |}.
+
+Definition set_ix ix (r : rstate) : rstate :=
+  {| r_ix := ix; r_dhcp := r_dhcp r; r_conf := r_conf r; r_qrules := r_qrules r; r_qign := r_qign r;
+     r_srules := r_srules r; r_sign := r_sign r; r_st := r_st r |}.
+Definition set_dhcp t (r : rstate) : rstate :=
+  {| r_ix := r_ix r; r_dhcp := t; r_conf := r_conf r; r_qrules := r_qrules r; r_qign := r_qign r;
+     r_srules := r_srules r; r_sign := r_sign r; r_st := r_st r |}.
+Definition set_conf c (r : rstate) : rstate :=
+  {| r_ix := r_ix r; r_dhcp := r_dhcp r; r_conf := c; r_qrules := r_qrules r; r_qign := r_qign r;
+     r_srules := r_srules r; r_sign := r_sign r; r_st := r_st r |}.
+Definition set_qrules rules q (r : rstate) : rstate :=
+  {| r_ix := r_ix r; r_dhcp := r_dhcp r; r_conf := r_conf r; r_qrules := rules; r_qign := q;
+     r_srules := r_srules r; r_sign := r_sign r; r_st := r_st r |}.
+Definition set_srules rules q (r : rstate) : rstate :=
+  {| r_ix := r_ix r; r_dhcp := r_dhcp r; r_conf := r_conf r; r_qrules := r_qrules r; r_qign := r_qign r;
+     r_srules := rules; r_sign := q; r_st := r_st r |}.
+Definition set_st st (r : rstate) : rstate :=
+  {| r_ix := r_ix r; r_dhcp := r_dhcp r; r_conf := r_conf r; r_qrules := r_qrules r; r_qign := r_qign r;
+     r_srules := r_srules r; r_sign := r_sign r; r_st := st |}.
 
 Definition eqb_lentry (a b : lentry) : bool :=
   match a, b with
@@ -83,62 +112,71 @@ Definition conf_obs_ok (c : qconf) (obs : bool * bool * bool) : bool :=
   | (e, a, m) => Bool.eqb (qc_enabled c) e && Bool.eqb (qc_anon c) a && Bool.eqb (qc_mut c) m
   end.
 
-Definition step_ok (names : list bytes) refuse srules sign macs (r : rstate) (e : sev) : rstate * bool :=
-  let mac_of := fun c => bget c macs in
-  match e with
-  | SQuery q =>
-      ({| r_ix := r_ix r; r_dhcp := r_dhcp r; r_conf := r_conf r; r_qrules := r_qrules r; r_qign := r_qign r;
-          r_st := process (env_of refuse srules sign r) q (r_st r) |}, true)
-  | SOp o =>
-      ({| r_ix := fst (step c08_cfg (r_ix r) o); r_dhcp := r_dhcp r; r_conf := r_conf r; r_qrules := r_qrules r; r_qign := r_qign r;
-          r_st := r_st r |}, true)
-  | SDhcp t =>
-      ({| r_ix := r_ix r; r_dhcp := t; r_conf := r_conf r; r_qrules := r_qrules r; r_qign := r_qign r; r_st := r_st r |}, true)
-  | SConf e a rules q0 obs =>
-      let q := combine names q0 in
-      let c := conf_step (r_conf r) (CPut e a) in
-      ({| r_ix := r_ix r; r_dhcp := r_dhcp r; r_conf := c; r_qrules := rules; r_qign := q; r_st := r_st r |},
-       conf_obs_ok c obs && table_agrees rules q)
-  | SLegacy e a obs =>
-      let c := conf_step (r_conf r) (CLegacy e a) in
-      ({| r_ix := r_ix r; r_dhcp := r_dhcp r; r_conf := c; r_qrules := r_qrules r; r_qign := r_qign r; r_st := r_st r |}, conf_obs_ok c obs)
-  | SFlush =>
-      ({| r_ix := r_ix r; r_dhcp := r_dhcp r; r_conf := r_conf r; r_qrules := r_qrules r; r_qign := r_qign r;
-          r_st := flush (r_st r) |}, true)
-  | SSearch obs =>
-      (r, same_multiset eqb_lentry
-            (map canon_entry (search_report (env_of refuse srules sign r) mac_of (r_st r))) obs)
-  end.
-
-Fixpoint replay (names : list bytes) refuse srules sign macs (r : rstate) (evs : list sev) : rstate * bool :=
-  match evs with
-  | [] => (r, true)
-  | e :: rest =>
-      let '(r', ok) := step_ok names refuse srules sign macs r e in
-      let '(r'', ok') := replay names refuse srules sign macs r' rest in
-      (r'', ok && ok')
-  end.
-
 Definition stat_key (s : sentry) : bytes * bytes :=
   match s with (_, c, i) => (c, canon_ip i) end.
 Definition eqb_bb (a b : bytes * bytes) : bool := eqb_bytes (fst a) (fst b) && eqb_bytes (snd a) (snd b).
 
-Definition final_ok (ev : env) mac_of (st : store) obs_file obs_domains (obs_clients : list (bytes * bytes * N)) obs_total : bool :=
-  eqb_list eqb_lentry (map canon_entry (st_file st ++ st_mem st)) obs_file &&
+(** GET /control/stats: the units of the window merged with the current one. *)
+Definition stats_ok (ev : env) mac_of (st : store) obs_domains (obs_clients : list (bytes * bytes * N)) obs_total : bool :=
   counts_match eqb_bytes (stats_domains ev st) obs_domains &&
   counts_match eqb_bb (map stat_key (stats_clients ev mac_of st)) obs_clients &&
-  (N.of_nat (length (st_stats st)) =? obs_total).
+  (N.of_nat (length (all_stats st)) =? obs_total).
 
-Definition init_state anon qrules qign : rstate :=
-  {| r_ix := empty_index; r_dhcp := []; r_conf := conf_init true anon; r_qrules := qrules; r_qign := qign; r_st := empty_store |}.
+Definition step_ok (names : list bytes) refuse macs (r : rstate) (e : sev) : rstate * bool :=
+  let mac_of := fun c => bget c macs in
+  match e with
+  | SQuery q => (set_st (process (env_of refuse r) q (r_st r)) r, true)
+  | SOp o => (set_ix (fst (step c08_cfg (r_ix r) o)) r, true)
+  | SDhcp t => (set_dhcp t r, true)
+  | SConf e a rules q0 obs =>
+      let q := combine names q0 in
+      let c := conf_step (r_conf r) (CPut e a) in
+      (set_qrules rules q (set_conf c r), conf_obs_ok c obs && table_agrees rules q)
+  | SLegacy e a obs =>
+      let c := conf_step (r_conf r) (CLegacy e a) in
+      (set_conf c r, conf_obs_ok c obs)
+  | SStatsConf rules q0 =>
+      let q := combine names q0 in
+      (set_srules rules q r, table_agrees rules q)
+  | SFlush => (set_st (flush (r_st r)) r, true)
+  | SRotate => (set_st (rotate (r_st r)) r, true)
+  | SRoll => (set_st (roll (r_st r)) r, true)
+  | SSearch obs =>
+      (r, same_multiset eqb_lentry
+            (map canon_entry (search_report (env_of refuse r) mac_of (r_st r))) obs)
+  | SStats od oc ot => (r, stats_ok (env_of refuse r) mac_of (r_st r) od oc ot)
+  end.
+
+Fixpoint replay (names : list bytes) refuse macs (r : rstate) (evs : list sev) : rstate * bool :=
+  match evs with
+  | [] => (r, true)
+  | e :: rest =>
+      let '(r', ok) := step_ok names refuse macs r e in
+      let '(r'', ok') := replay names refuse macs r' rest in
+      (r'', ok && ok')
+  end.
+
+Definition final_ok (ev : env) mac_of (st : store) obs_old obs_file obs_domains (obs_clients : list (bytes * bytes * N)) obs_total : bool :=
+  eqb_list eqb_lentry (map canon_entry (st_old st)) obs_old &&
+  eqb_list eqb_lentry (map canon_entry (st_file st ++ st_mem st)) obs_file &&
+  stats_ok ev mac_of st obs_domains obs_clients obs_total.
+
+(** The harness starts the query log on an existing, empty querylog.json. *)
+Definition init_store : store :=
+  {| st_mem := []; st_file := []; st_has_file := true; st_old := []; st_stats := []; st_units := [] |}.
+
+Definition init_state anon qrules qign srules sign : rstate :=
+  {| r_ix := empty_index; r_dhcp := []; r_conf := conf_init true anon; r_qrules := qrules; r_qign := qign;
+     r_srules := srules; r_sign := sign; r_st := init_store |}.
 
 Definition case_ok (c : case) : bool :=
   match c with
-  | CScen anon refuse names qrules qign0 srules sign0 macs evs of od oc ot =>
+  | CScen anon refuse names qrules qign0 srules sign0 macs evs oo of od oc ot =>
       let qign := combine names qign0 in
       let sign := combine names sign0 in
-      let '(r, ok) := replay names refuse srules sign macs (init_state anon qrules qign) evs in
-      ok && table_agrees qrules qign && table_agrees srules sign && final_ok (env_of refuse srules sign r) (fun c => bget c macs) (r_st r) of od oc ot
+      let '(r, ok) := replay names refuse macs (init_state anon qrules qign srules sign) evs in
+      ok && table_agrees qrules qign && table_agrees srules sign &&
+      final_ok (env_of refuse r) (fun c => bget c macs) (r_st r) oo of od oc ot
   | CFinder ops dhcp ids oq oc =>
       let ix := run c08_cfg ops empty_index in
       Bool.eqb (qlog_client_ignored ix (fun a => zget a dhcp) ids) oq &&
@@ -149,12 +187,12 @@ Definition mismatches := Base.Run.mismatches case_ok.
 
 Definition explain (c : case) :=
   match c with
-  | CScen anon refuse names qrules qign0 srules sign0 macs evs _ _ _ _ =>
+  | CScen anon refuse names qrules qign0 srules sign0 macs evs _ _ _ _ _ =>
       let qign := combine names qign0 in
       let sign := combine names sign0 in
-      let '(r, ok) := replay names refuse srules sign macs (init_state anon qrules qign) evs in
-      (ok, map canon_entry (st_file (r_st r) ++ st_mem (r_st r)), st_stats (r_st r))
+      let '(r, ok) := replay names refuse macs (init_state anon qrules qign srules sign) evs in
+      (ok, (map canon_entry (st_old (r_st r)), map canon_entry (st_file (r_st r) ++ st_mem (r_st r))), all_stats (r_st r))
   | CFinder ops dhcp ids _ _ =>
       let ix := run c08_cfg ops empty_index in
-      (qlog_client_ignored ix (fun a => zget a dhcp) ids, [], [([], [], if stats_client_counted ix (fun a => zget a dhcp) ids then [1] else [0])])
+      (qlog_client_ignored ix (fun a => zget a dhcp) ids, ([], []), [([], [], if stats_client_counted ix (fun a => zget a dhcp) ids then [1] else [0])])
   end.
